@@ -241,203 +241,279 @@ func (w *c03world) sig(src string, purpose string, data []byte) []byte {
 	return nil
 }
 
+func newC03World(hInit bool) *c03world {
+	w := &c03world{kinds: map[string]bool{}, hSent: map[string]bool{}, vpSent: map[string]bool{}}
+	w.hInit = hInit
+	w.h = newSession(idH, w.hInit, tBase)
+	w.vp = newSession(idV, !w.hInit, tBase)
+	w.addH(w.h.Handshake(nil))
+	w.addVp(w.vp.Handshake(nil))
+	return w
+}
+
+func claimKey(c string) []byte {
+	if c == "V" {
+		return marshalKey(idV)
+	}
+	return marshalKey(idM)
+}
+
+// The actions of the adversary. Each returns skip=true when it is not enabled in the current state (nothing was done)
+// and otherwise the oracle's verdict ("" = fine).
+
+func (w *c03world) actRelay(i int) (skip bool, problem string) {
+	if i >= len(w.hOut) {
+		return true, ""
+	}
+	m := w.hOut[i]
+	w.trace = append(w.trace, "relay H:"+msgName(m)+" to Vp")
+	isApp, out, err := deliverRecycled(w.vp, m, tBase)
+	if err == nil && !isApp {
+		w.addVp(out)
+	}
+	return false, ""
+}
+
+func (w *c03world) actGenuine(i int) (skip bool, problem string) {
+	if i >= len(w.vpOut) {
+		return true, ""
+	}
+	m := w.vpOut[i]
+	return false, w.deliverToH("genuine Vp:"+msgName(m), m)
+}
+
+func (w *c03world) actVpSend() (skip bool, problem string) {
+	pt := []byte(fmt.Sprintf("vp-plain-%d-0123456789", len(w.vpSent)))
+	ct, err := w.vp.Send(nil, pt, tBase)
+	if err != nil {
+		return true, ""
+	}
+	w.vpSent[string(pt)] = true
+	w.addVp(ct)
+	w.trace = append(w.trace, "Vp sends data")
+	return false, ""
+}
+
+func (w *c03world) actCross(i int) (skip bool, problem string) {
+	if i >= len(hv.otherMsgs) {
+		return true, ""
+	}
+	m := hv.otherMsgs[i]
+	w.kinds["cross-feed"] = true
+	return false, w.deliverToH(fmt.Sprintf("cross-feed[%d] %s", i, msgName(m)), m)
+}
+
+func (w *c03world) actForgeHello(claimed, src string) (skip bool, problem string) {
+	var m []byte
+	fp := newForgedPeer(!w.hInit)
+	signedNow := false
+	if w.hInit {
+		// forged RespHello bound to H's InitHello
+		ih := w.hOut[0]
+		cb, ok := fp.readInitHello(ih)
+		if !ok {
+			return true, ""
+		}
+		m = fp.respHello(claimKey(claimed), w.sig(src, purposeCB, cb))
+		signedNow = claimed == "M" && src == "freshM"
+	} else {
+		ts := tsBytes(0)
+		sig := w.sig(src, purposeTS, ts)
+		if src == "vTimestampSig" {
+			ts = hv.vInitHelloTS // the lifted claim: V's key, V's timestamp, V's signature, attacker's ephemeral
+		}
+		m = fp.initHello(ts, claimKey(claimed), sig)
+	}
+	kind := fmt.Sprintf("forged %s claimed=%s sig=%s", msgName(m), claimed, src)
+	w.kinds[kind] = true
+	w.last = fp
+	nOut := len(w.hOut)
+	p := w.deliverToH(kind, m)
+	if w.advanced {
+		// H accepted this hello: this is now the attacker's live handshake with H
+		w.fp = fp
+		w.mSigned = signedNow
+		w.forgedParsed++
+		if !w.hInit && len(w.hOut) > nOut {
+			if cb, ok := fp.readRespHello(w.hOut[len(w.hOut)-1]); ok {
+				w.fpCB = cb
+			}
+		}
+	}
+	return false, p
+}
+
+// actTwinHello: the adversary sends the byte-identical InitHello (victim's lifted claim, its own ephemeral) to a
+// genuine responder session of the victim and to H, and carries the victim's RespHello signature
+// over to H inside InitDone.
+func (w *c03world) actTwinHello(seed byte) (skip bool, problem string) {
+	if w.hInit || w.twin != nil {
+		return true, ""
+	}
+	p1, p2 := kefake.NewTwinPeers(true, seed)
+	hello1 := p1.InitHello(hv.vInitHelloTS, kefake.MarshalKey(idV), hv.vInitHelloSig)
+	hello2 := p2.InitHello(hv.vInitHelloTS, kefake.MarshalKey(idV), hv.vInitHelloSig)
+	if !bytes.Equal(hello1, hello2) {
+		return false, ev.Tag("harness: twin hellos differ")
+	}
+	vResp := newSession(idV, false, tBase)
+	_, vrh, err := vResp.Deliver(nil, hello2, tBase)
+	if err != nil || len(vrh) == 0 {
+		return true, ""
+	}
+	sig, _, ok := p2.RespHelloSig(vrh)
+	if !ok {
+		return true, ""
+	}
+	w.kinds["twin hello: victim's RespHello signature for the same InitHello"] = true
+	nOut := len(w.hOut)
+	p := w.deliverToH("twin InitHello claimed=V", hello1)
+	if w.advanced && len(w.hOut) > nOut {
+		if _, ok := p1.ReadRespHello(w.hOut[len(w.hOut)-1]); ok {
+			w.twin = p1
+			w.forgedParsed++
+			w.mSigned = false
+			w.fp = nil
+		}
+	}
+	if p != "" {
+		return false, p
+	}
+	if w.twin != nil {
+		if p := w.deliverToH("twin InitDone sig=victim's RespHello signature (same hello)", w.twin.InitDone(sig)); p != "" {
+			return false, p
+		}
+		if p := w.deliverToH("twin data", w.twin.Data([]byte("attacker-data-0123456789"))); p != "" {
+			return false, p
+		}
+	}
+	return false, ""
+}
+
+func (w *c03world) attackerPeer() *forgedPeer {
+	fp := w.fp
+	if fp == nil {
+		fp = w.last
+	}
+	if fp == nil || !fp.hasCiphers() {
+		return nil
+	}
+	return fp
+}
+
+func (w *c03world) actForgeDone(src string) (skip bool, problem string) {
+	fp := w.attackerPeer()
+	if fp == nil {
+		return true, ""
+	}
+	var m []byte
+	var kind string
+	if w.hInit {
+		m = fp.respDone()
+		kind = "forged RespDone"
+	} else {
+		m = fp.initDone(w.sig(src, purposeCB, w.fpCB))
+		kind = "forged InitDone sig=" + src
+		if src == "freshM" && fp == w.fp {
+			w.mSigned = true // the attacker has now signed the transcript H holds, with its own key
+		}
+	}
+	w.kinds[kind] = true
+	w.forgedParsed++
+	return false, w.deliverToH(kind, m)
+}
+
+func (w *c03world) actForgeData() (skip bool, problem string) {
+	fp := w.attackerPeer()
+	if fp == nil {
+		return true, ""
+	}
+	m := fp.data([]byte("attacker-data-0123456789"))
+	w.kinds["forged data"] = true
+	return false, w.deliverToH("forged "+msgName(m), m)
+}
+
+func (w *c03world) actHSend() (skip bool, problem string) {
+	pt := []byte("h-plain-0123456789abcdef")
+	ct, err := w.h.Send(nil, pt, tBase)
+	w.trace = append(w.trace, fmt.Sprintf("H.Send ok=%v", err == nil))
+	if err == nil {
+		w.addH(ct)
+		if p := w.oracle(true); p != "" {
+			return false, "H agreed to encrypt: " + p
+		}
+	}
+	return false, ""
+}
+
 func TestC03Forgery(t *testing.T) {
 	const sub = "C03.forgery"
 	harvestOnce.Do(doHarvest)
 	ev.Rule(sub, "rapid state machine: honest session H (role drawn) with the victim's genuine peer session Vp and an attacker M holding only its own key. Actions: relay H's messages to Vp; deliver Vp's genuine messages to H in any order with duplicates; cross-feed messages of the victim's other handshakes; forged RespHello / InitHello / InitDone / RespDone / data built from first principles with claimed key in {M,V} and signature source in {fresh by M over the right data, V's InitHello timestamp signature, V's RespHello or InitDone signature from another handshake, garbage, empty}; H.Send attempts. Oracle after every delivery: if H is ready, accepts data or encrypts, then RemoteKey() is M and M signed this transcript, or V and V's own session has the same channel binding and has signed; an error return must not move the handshake state. non-trivial = H processed >= 1 forged or spliced message that parsed; distinct by action trace")
 	rapid.Check(t, func(t *rapid.T) {
-		w := &c03world{kinds: map[string]bool{}, hSent: map[string]bool{}, vpSent: map[string]bool{}}
-		w.hInit = rapid.Bool().Draw(t, "hIsInitiator")
-		w.h = newSession(idH, w.hInit, tBase)
-		w.vp = newSession(idV, !w.hInit, tBase)
-		w.addH(w.h.Handshake(nil))
-		w.addVp(w.vp.Handshake(nil))
-		fail := func(p string) {
-			t.Fatalf("%s\nH role initiator=%v\ntrace: %s", p, w.hInit, strings.Join(w.trace, " ; "))
-		}
-		claimKey := func(c string) []byte {
-			if c == "V" {
-				return marshalKey(idV)
+		w := newC03World(rapid.Bool().Draw(t, "hIsInitiator"))
+		do := func(t *rapid.T, why string, skip bool, p string) {
+			if skip {
+				t.Skip(why)
 			}
-			return marshalKey(idM)
+			if p != "" {
+				t.Fatalf("%s\nH role initiator=%v\ntrace: %s", p, w.hInit, strings.Join(w.trace, " ; "))
+			}
 		}
 		t.Repeat(map[string]func(*rapid.T){
 			"relayToVp": func(t *rapid.T) {
 				if len(w.hOut) == 0 {
 					t.Skip("nothing to relay")
 				}
-				m := w.hOut[rapid.IntRange(0, len(w.hOut)-1).Draw(t, "hMsg")]
-				w.trace = append(w.trace, "relay H:"+msgName(m)+" to Vp")
-				isApp, out, err := deliverRecycled(w.vp, m, tBase)
-				if err == nil && !isApp {
-					w.addVp(out)
-				}
+				skip, p := w.actRelay(rapid.IntRange(0, len(w.hOut)-1).Draw(t, "hMsg"))
+				do(t, "nothing to relay", skip, p)
 			},
 			"genuine": func(t *rapid.T) {
 				if len(w.vpOut) == 0 {
 					t.Skip("Vp has produced nothing")
 				}
-				m := w.vpOut[rapid.IntRange(0, len(w.vpOut)-1).Draw(t, "vpMsg")]
-				if p := w.deliverToH("genuine Vp:"+msgName(m), m); p != "" {
-					fail(p)
-				}
+				skip, p := w.actGenuine(rapid.IntRange(0, len(w.vpOut)-1).Draw(t, "vpMsg"))
+				do(t, "Vp has produced nothing", skip, p)
 			},
 			"vpSend": func(t *rapid.T) {
-				pt := []byte(fmt.Sprintf("vp-plain-%d-0123456789", len(w.vpSent)))
-				ct, err := w.vp.Send(nil, pt, tBase)
-				if err != nil {
-					t.Skip("Vp cannot send yet")
-				}
-				w.vpSent[string(pt)] = true
-				w.addVp(ct)
-				w.trace = append(w.trace, "Vp sends data")
+				skip, p := w.actVpSend()
+				do(t, "Vp cannot send yet", skip, p)
 			},
 			"cross": func(t *rapid.T) {
-				m := hv.otherMsgs[rapid.IntRange(0, len(hv.otherMsgs)-1).Draw(t, "otherMsg")]
-				w.kinds["cross-feed"] = true
-				if p := w.deliverToH("cross-feed "+msgName(m), m); p != "" {
-					fail(p)
-				}
+				skip, p := w.actCross(rapid.IntRange(0, len(hv.otherMsgs)-1).Draw(t, "otherMsg"))
+				do(t, "no cross-feed material", skip, p)
 			},
 			"forgeHello": func(t *rapid.T) {
 				claimed := rapid.SampledFrom([]string{"M", "V", "V"}).Draw(t, "claimed")
 				src := rapid.SampledFrom(sigSources).Draw(t, "sigSource")
-				var m []byte
-				fp := newForgedPeer(!w.hInit)
-				signedNow := false
-				if w.hInit {
-					// forged RespHello bound to H's InitHello
-					ih := w.hOut[0]
-					cb, ok := fp.readInitHello(ih)
-					if !ok {
-						t.Skip("cannot read InitHello")
-					}
-					m = fp.respHello(claimKey(claimed), w.sig(src, purposeCB, cb))
-					signedNow = claimed == "M" && src == "freshM"
-				} else {
-					ts := tsBytes(0)
-					sig := w.sig(src, purposeTS, ts)
-					if src == "vTimestampSig" {
-						ts = hv.vInitHelloTS // the lifted claim: V's key, V's timestamp, V's signature, attacker's ephemeral
-					}
-					m = fp.initHello(ts, claimKey(claimed), sig)
-				}
-				kind := fmt.Sprintf("forged %s claimed=%s sig=%s", msgName(m), claimed, src)
-				w.kinds[kind] = true
-				w.last = fp
-				nOut := len(w.hOut)
-				p := w.deliverToH(kind, m)
-				if w.advanced {
-					// H accepted this hello: this is now the attacker's live handshake with H
-					w.fp = fp
-					w.mSigned = signedNow
-					w.forgedParsed++
-					if !w.hInit && len(w.hOut) > nOut {
-						if cb, ok := fp.readRespHello(w.hOut[len(w.hOut)-1]); ok {
-							w.fpCB = cb
-						}
-					}
-				}
-				if p != "" {
-					fail(p)
-				}
+				skip, p := w.actForgeHello(claimed, src)
+				do(t, "cannot read InitHello", skip, p)
 			},
 			"twinHello": func(t *rapid.T) {
-				// The adversary sends the byte-identical InitHello (victim's lifted claim, its own ephemeral) to a
-				// genuine responder session of the victim and to H, and carries the victim's RespHello signature
-				// over to H inside InitDone.
 				if w.hInit || w.twin != nil {
 					t.Skip("needs a responder H, once")
 				}
-				p1, p2 := kefake.NewTwinPeers(true, byte(rapid.IntRange(1, 200).Draw(t, "ephemeralSeed")))
-				hello1 := p1.InitHello(hv.vInitHelloTS, kefake.MarshalKey(idV), hv.vInitHelloSig)
-				hello2 := p2.InitHello(hv.vInitHelloTS, kefake.MarshalKey(idV), hv.vInitHelloSig)
-				if !bytes.Equal(hello1, hello2) {
-					t.Fatalf("%s", ev.Tag(fmt.Sprintf("harness: twin hellos differ")))
-				}
-				vResp := newSession(idV, false, tBase)
-				_, vrh, err := vResp.Deliver(nil, hello2, tBase)
-				if err != nil || len(vrh) == 0 {
-					t.Skip("the victim did not answer the twin hello")
-				}
-				sig, _, ok := p2.RespHelloSig(vrh)
-				if !ok {
-					t.Skip("cannot read the victim's RespHello")
-				}
-				w.kinds["twin hello: victim's RespHello signature for the same InitHello"] = true
-				nOut := len(w.hOut)
-				p := w.deliverToH("twin InitHello claimed=V", hello1)
-				if w.advanced && len(w.hOut) > nOut {
-					if _, ok := p1.ReadRespHello(w.hOut[len(w.hOut)-1]); ok {
-						w.twin = p1
-						w.forgedParsed++
-						w.mSigned = false
-						w.fp = nil
-					}
-				}
-				if p != "" {
-					fail(p)
-				}
-				if w.twin != nil {
-					if p := w.deliverToH("twin InitDone sig=victim's RespHello signature (same hello)", w.twin.InitDone(sig)); p != "" {
-						fail(p)
-					}
-					if p := w.deliverToH("twin data", w.twin.Data([]byte("attacker-data-0123456789"))); p != "" {
-						fail(p)
-					}
-				}
+				skip, p := w.actTwinHello(byte(rapid.IntRange(1, 200).Draw(t, "ephemeralSeed")))
+				do(t, "the victim did not answer the twin hello", skip, p)
 			},
 			"forgeDone": func(t *rapid.T) {
-				fp := w.fp
-				if fp == nil {
-					fp = w.last
-				}
-				if fp == nil || !fp.hasCiphers() {
+				if w.attackerPeer() == nil {
 					t.Skip("attacker has no keys yet")
 				}
-				var m []byte
-				var kind string
-				if w.hInit {
-					m = fp.respDone()
-					kind = "forged RespDone"
-				} else {
-					src := rapid.SampledFrom(sigSources).Draw(t, "sigSource")
-					m = fp.initDone(w.sig(src, purposeCB, w.fpCB))
-					kind = "forged InitDone sig=" + src
-					if src == "freshM" && fp == w.fp {
-						w.mSigned = true // the attacker has now signed the transcript H holds, with its own key
-					}
+				src := "freshM"
+				if !w.hInit {
+					src = rapid.SampledFrom(sigSources).Draw(t, "sigSource")
 				}
-				w.kinds[kind] = true
-				w.forgedParsed++
-				if p := w.deliverToH(kind, m); p != "" {
-					fail(p)
-				}
+				skip, p := w.actForgeDone(src)
+				do(t, "attacker has no keys yet", skip, p)
 			},
 			"forgeData": func(t *rapid.T) {
-				fp := w.fp
-				if fp == nil {
-					fp = w.last
-				}
-				if fp == nil || !fp.hasCiphers() {
-					t.Skip("attacker has no keys yet")
-				}
-				m := fp.data([]byte("attacker-data-0123456789"))
-				w.kinds["forged data"] = true
-				if p := w.deliverToH("forged "+msgName(m), m); p != "" {
-					fail(p)
-				}
+				skip, p := w.actForgeData()
+				do(t, "attacker has no keys yet", skip, p)
 			},
 			"hSend": func(t *rapid.T) {
-				pt := []byte("h-plain-0123456789abcdef")
-				ct, err := w.h.Send(nil, pt, tBase)
-				w.trace = append(w.trace, fmt.Sprintf("H.Send ok=%v", err == nil))
-				if err == nil {
-					w.addH(ct)
-					if p := w.oracle(true); p != "" {
-						fail("H agreed to encrypt: " + p)
-					}
-				}
+				skip, p := w.actHSend()
+				do(t, "", skip, p)
 			},
 		})
 		ev.Eval(sub)
